@@ -15,6 +15,7 @@ import (
 
 type c13Params struct {
 	repoFlagSets int
+	deep         int
 	gen          int
 	genFree      int
 	mut          int
@@ -26,9 +27,9 @@ type c13Params struct {
 
 func c13Tier(tier string) c13Params {
 	if tier == "thorough" {
-		return c13Params{repoFlagSets: 12, gen: 5000, genFree: 2500, mut: 9000, bytes: 2500, faultsPer: 6, sessionLen: 32, realBinary: 60}
+		return c13Params{repoFlagSets: 12, deep: 60, gen: 5000, genFree: 2500, mut: 9000, bytes: 2500, faultsPer: 6, sessionLen: 32, realBinary: 60}
 	}
-	return c13Params{repoFlagSets: 1, gen: 70, genFree: 40, mut: 170, bytes: 30, faultsPer: 4, sessionLen: 24, realBinary: 12}
+	return c13Params{repoFlagSets: 1, deep: 6, gen: 70, genFree: 40, mut: 170, bytes: 30, faultsPer: 4, sessionLen: 24, realBinary: 12}
 }
 
 func c13Inputs(seed uint64, p c13Params, src string) []toolInput {
@@ -58,6 +59,16 @@ func c13Inputs(seed uint64, p c13Params, src string) []toolInput {
 		in := toolInput{Name: "mut(" + src.Name + ")", Class: "mut", Grammar: mutateGrammar(r, src.Grammar), Flags: src.Flags, Rules: src.Rules}
 		if r.chance(1, 2) {
 			in.Flags = drawFlags(r, src.Rules, false)
+		}
+		ins = append(ins, in)
+	}
+	for i := 0; i < p.deep; i++ {
+		in := genDeepGrammar(r)
+		// not with -optimize-grammar: inlining every reference is that option's
+		// purpose, and on these shapes its *output* has 2^depth nodes (DESIGN 16.3, O4)
+		in.Flags = removeArgs(drawFlags(r, in.Rules[:2], false), "-optimize-grammar", 1)
+		if in.Name == "gennest" && r.chance(1, 2) && !contains(in.Flags, "-cache") {
+			in.Flags = append([]string{"-cache"}, in.Flags...)
 		}
 		ins = append(ins, in)
 	}
@@ -102,6 +113,9 @@ func c13Judge(in toolInput, kind string, c *tooldriver.Case, o outcome, base *ou
 		return "crash", "the process died: " + firstLine(strings.TrimSpace(lastFatal(o.Detail)))
 	}
 	run := &o.Res.Runs[0]
+	if run.StepCapHit {
+		return "not-bounded", fmt.Sprintf("the tool did not finish within the logical-time bound of %d instrumentation steps (5 million + 50 000 per grammar byte; the grammar has %d bytes)", c.StepCap, caseInputLen(c))
+	}
 	if run.Panic != "" {
 		return "panic", "Go panic escaped main: " + firstLine(run.Panic)
 	}
@@ -216,6 +230,7 @@ func runC13(tier string) int {
 		deliv[i] = delivery{viaFile: r.chance(1, 2), outFile: r.chance(1, 2)}
 		deliv[i].stale = deliv[i].outFile && r.chance(1, 2)
 		c := makeCase(fmt.Sprintf("base-%d", i), ins[i], deliv[i], simos.NoFaults(), simmap.Asc, 0, 1)
+		c.StepCap = stepCapFor(len(ins[i].Grammar))
 		baseJobs = append(baseJobs, job{i, c13Variant{"base", c}})
 	}
 	runJobs := func(jobs []job) []outcome {
@@ -249,12 +264,16 @@ func runC13(tier string) int {
 		d := deliv[i]
 		add := func(kind string, dd delivery, f simos.Faults) {
 			c := makeCase(fmt.Sprintf("%s-%d", kind, i), in, dd, f, simmap.Asc, 0, 1)
+			c.StepCap = stepCapFor(len(in.Grammar))
 			if kind == "openerr" {
 				// a perfectly good grammar waits on stdin: a tool that shrugs off the
 				// failed open and reads stdin instead would "succeed"
 				c.Stdin = []byte("{\npackage decoy\n}\nDecoy <- 'd'\n")
 			}
 			varJobs = append(varJobs, job{i, c13Variant{kind, c}})
+		}
+		if b.Status == "ok" && b.Res.Runs[0].StepCapHit {
+			continue // every variant would only spend the same logical-time budget again
 		}
 		add("twin", delivery{viaFile: !d.viaFile, outFile: !d.outFile}, simos.NoFaults())
 		if b.Status != "ok" {
@@ -427,11 +446,13 @@ func runC13(tier string) int {
 			"simulated_time":                       "no clock in pigeon; logical time only",
 			"known_findings_seen":                  rep.known,
 			"violating_runs_before_dedup":          len(bad),
+			"logical_time":                         stepEvidence(),
 			"no_recover_panics_tolerated_as_documented": c13NoRecoverDocumented,
+			"exponential_parses_without_cache_tolerated_as_documented": c13CacheDocumented,
 			"components": map[string]any{"real": []string{"main.go", "pigeon.go (front-end)", "ast", "builder", "golang.org/x/tools/imports", "flag parsing of invalid flags (unmodified binary as a subprocess)"}, "stub": []string{"os files/streams/exit (simos)", "map iteration order fixed ascending (simmap)"}},
 			"excluded":   "-h/-help (a help request, not a generation); whether accepted output compiles (C04)",
 		},
-		Assumptions: []string{"a case that exceeds the 5 s watchdog is re-run alone with 20 s before it is called a hang", "simos.Exit unwinds by panic; everything observable after the first Exit is discarded, as after os.Exit", "fault offsets are sampled inside the I/O the fault-free run performed, not enumerated"},
+		Assumptions: []string{"bounded liveness: a run must end within 5 million + 50 000 x (grammar bytes + 64) instrumentation steps of pigeon's own packages (function entries and loop iterations); a run beyond that is only excused when it lacks -cache and the same run with -cache stays within the bound (documented purpose of -cache)", "a case that exceeds the 5 s watchdog is re-run alone with 20 s before it is called a hang", "simos.Exit unwinds by panic; everything observable after the first Exit is discarded, as after os.Exit", "fault offsets are sampled inside the I/O the fault-free run performed, not enumerated"},
 	}
 	writeEvidence(ev)
 	code := rep.finish()
@@ -471,6 +492,19 @@ func c13Confirm(tw *toolWorld, seed uint64, idx int, in toolInput, kind, class, 
 			return nil
 		}
 	}
+	if cl == "not-bounded" && !contains(c.Args, "-cache") {
+		// "-cache: cache parser results to avoid exponential parsing time in
+		// pathological cases" - reading a grammar text without it may take
+		// exponential time by design (nested parentheses do). That is documented
+		// behaviour exactly when the same run with -cache stays within the bound.
+		tc := c
+		tc.Args = append([]string{"-cache"}, c.Args...)
+		o := runSession(tw, []tooldriver.Case{tc}, 20*time.Second)[0]
+		if o.Status == "ok" && !o.Res.Runs[0].StepCapHit {
+			c13CacheDocumented++
+			return nil
+		}
+	}
 	if cl == "" {
 		// not reproducible alone: the run depended on process history; do not report
 		// what cannot be replayed, but say so.
@@ -499,6 +533,9 @@ func c13Confirm(tw *toolWorld, seed uint64, idx int, in toolInput, kind, class, 
 	deadline := time.Now().Add(90 * time.Second)
 	expired := func() bool { return time.Now().After(deadline) }
 	lines := strings.Split(string(g), "\n")
+	if in.Attrs != nil {
+		lines = nil // the recorded shape describes this text; it is small already
+	}
 	for i := 0; i < len(lines) && budget > 0 && len(lines) > 1 && !expired(); {
 		cand := append(append([]string(nil), lines[:i]...), lines[i+1:]...)
 		budget--
@@ -508,8 +545,10 @@ func c13Confirm(tw *toolWorld, seed uint64, idx int, in toolInput, kind, class, 
 			i++
 		}
 	}
-	g = []byte(strings.Join(lines, "\n"))
-	for budget > 0 && len(g) > 8 && !expired() {
+	if in.Attrs == nil {
+		g = []byte(strings.Join(lines, "\n"))
+	}
+	for budget > 0 && len(g) > 8 && !expired() && in.Attrs == nil {
 		budget--
 		half := len(g) / 2
 		if c2, m2 := judge(c, g[:half]); same(c2, m2) {
@@ -562,10 +601,17 @@ func c13Confirm(tw *toolWorld, seed uint64, idx int, in toolInput, kind, class, 
 		rp.Base = &base
 	}
 	attrs := map[string]string{"class": class, "variant": kind, "message": msg, "args": strings.Join(c.Args, " "), "grammar": string(g), "dedupe": class + "|" + msg}
+	for k, v := range in.Attrs {
+		attrs[k] = v
+	}
+	if in.Attrs != nil {
+		attrs["optimize_grammar"] = fmt.Sprint(contains(c.Args, "-optimize-grammar"))
+		attrs["dedupe"] = class + "|" + in.Attrs["refs_all_visited"] + "|" + attrs["optimize_grammar"]
+	}
 	return &violation{Property: "C13", Class: class, Message: fmt.Sprintf("%s [%s] args=%q grammar=%q", msg, kind, c.Args, head(string(g), 200)), Attrs: attrs, Seed: seed, Case: fmt.Sprintf("input-%d/%s", idx, kind), Replay: rp, Kind: "c13"}
 }
 
-var c13NoRecoverDocumented int
+var c13NoRecoverDocumented, c13CacheDocumented int
 
 func removeArgs(args []string, flag string, n int) []string {
 	for i, a := range args {
@@ -586,6 +632,9 @@ func setGrammar(c *tooldriver.Case, g []byte) {
 		c.Files = files
 	} else {
 		c.Stdin = g
+	}
+	if c.StepCap > 0 {
+		c.StepCap = stepCapFor(len(g))
 	}
 }
 
